@@ -12,7 +12,7 @@
    Every op first builds the input Screen ([construct]: tag 2 on a mixed plate). *)
 From Coq Require Import ZArith List.
 From Batchie Require Import Lib.Sexp Lib.Num Model.Encode Model.Screen Model.ScreenIO
-  Model.Retro Model.Holdout Model.Pairwise Model.RetroInit.
+  Model.Retro Model.RetroHoldout Model.Pairwise Model.RetroInit.
 Import ListNotations.
 Open Scope Z_scope.
 
